@@ -484,7 +484,9 @@ class Ctx(object):
     # ------------------------------------------------------------------
     def replay(self, ob, r):
         """re-run the solver's input against the real code built by gcc (or
-        clang+ASan for memory safety) through the same harness source"""
+        clang+ASan for memory safety, with the obligation's units compiled from
+        the snapshot's sources so that they are instrumented too) through the
+        same harness source"""
         rdir = os.path.join('/tmp/verif-evidence-scratch' if (os.environ.get('VERIF_NO_EVIDENCE') or os.environ.get('VERIF_ONLY')) else
                             os.path.join(VERIF, 'evidence'), 'replay', self.prop)
         os.makedirs(rdir, exist_ok=True)
@@ -529,8 +531,9 @@ class Ctx(object):
         cmd = cc + ['-std=gnu11', '-w'] + CPPFLAGS + self.incs(self.snap) + \
             ['-D%s=%s' % kv for kv in sorted(defs.items())] + \
             ['-DVF_ENTRY=' + func, '-o', exe,
-             os.path.join(HDIR, harness), os.path.join(HDIR, 'vf_replay.c'),
-             os.path.join(self.snap, 'src', 'libdutio.a'),
+             os.path.join(HDIR, harness), os.path.join(HDIR, 'vf_replay.c')] + \
+            ([os.path.join(self.snap, u) for u in (units or ())] if mode == 'asan' else []) + \
+            [os.path.join(self.snap, 'src', 'libdutio.a'),
              os.path.join(self.snap, 'lib', 'libdut.a'), '-lm']
         p = sh(cmd, timeout=300)
         if p.returncode != 0:
